@@ -37,7 +37,7 @@ ASSUMPTIONS = [
     '(must be set), when the last accepted one has ended or connect() '
     'failed (must be clear)',
 ]
-BUDGET = {'quick': 2000, 'thorough': 80000}
+BUDGET = {'quick': 6000, 'thorough': 80000}
 FLOOR = {'quick': 150, 'thorough': 5000}
 NSS = ['/', '/a', '/b']
 
